@@ -58,6 +58,16 @@ CHECKS['C20'] = dict(
     technique="Coq proof (binary search termination+exactness, lookup tables, accessor totality) + exhaustive interface sweep and differential check against libinterrogatedb",
     ref="5/C20")
 
+CHECKS['C03'] = dict(
+    text="Proof (naming obligations): for ARBITRARY hash functions, hence any number and pattern of 24-bit hash collisions and any processing order, the collision protocol of "
+         "hash_function_signature assigns pairwise distinct names to distinct signatures whenever it reports no internal error, every signature gets a name, hash_string yields four "
+         "identifier characters for every input, and every emitted hash part consists of identifier characters; the error hypothesis is shown necessary (28 double collisions, refuted "
+         "theorem = recorded finding, reproduced on the real tool). Correspondence: the extracted hash_string finds real collisions (birthday search and the 24-periodic swap construction) "
+         "and the names in the databases must equal the model's. Translation validation (not a theorem): every successful run over the option lattice is compiled by g++.",
+    note=TB + "well-formedness of emitted C++ is translation validation by g++ -fsyntax-only against shim headers (empty dconfig.h, minimal register_type.h); link/initialise is covered by C16.",
+    technique="Coq proof (invariant over the collision table, arbitrary hash functions) + model-driven collision generation + g++ translation validation over the option lattice",
+    ref="5/C03")
+
 PENDING = {
 }
 
